@@ -183,6 +183,17 @@ class Monitor:
                 # the variable's type narrows to the initializer's type; whether the program
                 # stays well-typed depends on every later use (reference checker) -> counted only
                 out.ev('info:erased-variable-narrows-to-initializer-type')
+        # R2 (inference): no removed return type belongs to an expression-bodied function that calls itself
+        try:
+            from vf import refcheck
+            ck = refcheck.Checker(program, self.case.lang).run()
+            out.ev('infer-positions', ck.stats.get('INFER', 0))
+            for f in ck.findings:
+                if f['rule'] == 'INFER':
+                    bad = True
+                    out.violation({'rule': 'R2-return-type-not-inferable'}, f['msg'], w)
+        except RecursionError:
+            out.skip('checker-recursion')
         if not bad:
             out.ok(('erase', self.case.lang, tuple(sorted(kinds.items())), self.case.seed, k),
                    nontrivial=bool(d))
